@@ -4,7 +4,7 @@
            command.rs (`read_commands_into_parameters!`, `handle_param_setters!`), mix.rs,
            harness/src/probe.rs::ProbeEffect (the test effect nested in the feedback loop)
 
-  The delay line is a `List (Frame α)` of `⌊delay·fs⌋` frames (oldest first).  `process` mirrors the
+  The delay line is a `List (Frame α)` of `max ⌊delay·fs⌋ 1` frames (oldest first; computed in integers).  `process` mirrors the
   Rust sub-chunking (`input.chunks_mut(buffer.len())`): each sub-chunk reads the first `n` frames of the
   line, sends them through the feedback effects, scales them by the feedback amplitude, shifts the line
   left by `n`, writes `input + read` at its end and outputs the wet/dry blend.
@@ -98,19 +98,21 @@ def new (delayNs : Nat) (feedback mix : Value α α) (fx : φ) : Delay α φ :=
     cmdFeedback := none, cmdMix := none
     buffer := [], tempLen := 0, fx := fx }
 
-/-- `((self.delay_time.as_secs_f64() * sample_rate as f64) as usize).max(1)` — at least one frame -/
-def frames (α : Type) [Add α] [Mul α] [Div α] [OfScientific α] [KOps α] (delayNs sr : Nat) : Nat :=
-  max (KOps.toNatSat ((durToSecs delayNs : α) * (KOps.ofNat sr : α))) 1
+/-- mirrors: effect/delay.rs::delay_time_frames — `delay_time.as_nanos() * sample_rate as u128 / 1_000_000_000`
+    (whole nanoseconds times the rate, in integers, rounded down), `.max(1)`: at least one frame.
+    (`usize::try_from(..).unwrap_or(usize::MAX)` only matters for lines no machine can allocate.) -/
+def frames (delayNs sr : Nat) : Nat :=
+  max (delayNs * sr / 1000000000) 1
 
 /-- mirrors: `Effect::init` for Delay -/
 def init (C : FxChain α φ) (d : Delay α φ) (sr ibs : Nat) : Delay α φ :=
-  { d with buffer := List.replicate (frames α d.delayNs sr) Frame.zero
+  { d with buffer := List.replicate (frames d.delayNs sr) Frame.zero
            tempLen := ibs
            fx := C.init d.fx sr ibs }
 
 /-- mirrors: `Effect::on_change_sample_rate` for Delay -/
 def changeRate (C : FxChain α φ) (d : Delay α φ) (sr : Nat) : Delay α φ :=
-  { d with buffer := List.replicate (frames α d.delayNs sr) Frame.zero
+  { d with buffer := List.replicate (frames d.delayNs sr) Frame.zero
            fx := C.changeRate d.fx sr }
 
 /-- mirrors: DelayHandle::set_feedback -/
